@@ -68,6 +68,17 @@ func c04WriteAt(fsys *FileSystem, name string, flag int, off int64, data []byte)
 	vp.Assert(n == len(data), "write complete")
 }
 
+// c04Window declares the device window for data writes at symbolic offsets: the first free
+// block of group 0 (where the first-fit allocator will place the next file data) and the
+// nblocks-1 blocks after it.
+func c04Window(fsys *FileSystem, dev *c04Dev, cfg c04Cfg, nblocks int) {
+	bm, err := fsys.readBlockBitmap(0)
+	vp.Assume(err == nil)
+	first := int64(bm.FirstFree(0)) + int64(fsys.superblock.firstDataBlock)
+	dev.winLo = cfg.start + first*int64(cfg.bs())
+	dev.winHi = dev.winLo + int64(nblocks)*int64(cfg.bs())
+}
+
 func c04Reopen(dev *c04Dev, size int64, cfg c04Cfg) *FileSystem {
 	vp.NoPanic()
 	fs2, err := Read(dev, size, cfg.start, 512)
@@ -131,6 +142,7 @@ func c04ScTwoWrites(cfg c04Cfg) {
 	vp.Assume(o2 <= l1+4)
 	vp.AllocCap(max1 + 8)
 	dev.symCap = max1 + 8
+	c04Window(fsys, dev, cfg, 4)
 	c04WriteAt(fsys, "/f", os.O_CREATE|os.O_RDWR, -1, data1[:l1])
 	vp.AllocCap(8)
 	dev.symCap = 8
